@@ -66,11 +66,12 @@ def limit(mem_gb):
     return f
 
 
-def run_cbmc(cfile, flags, timeout, mem_gb, tmpdir):
+def run_cbmc(cfile, flags, timeout, mem_gb, tmpdir, register=None):
     env = dict(os.environ); env['TMPDIR'] = tmpdir
     t0 = time.time()
     cmd = ['/usr/bin/time', '-f', 'VP_RSS_KB=%M', 'cbmc', cfile, '-I', os.path.join(ROOT, 'engine'), '--json-ui'] + flags
     p = subprocess.Popen(cmd, stdout=subprocess.PIPE, stderr=subprocess.PIPE, text=True, env=env, preexec_fn=limit(mem_gb))
+    if register: register(p)
     try:
         out, err = p.communicate(timeout=timeout)
         to = False
@@ -141,6 +142,7 @@ class Runner:
         s.work = tempfile.mkdtemp(prefix=f"vp_{pid}_")
         s.results = []
         s.t0 = time.time()
+        s.decided = set(); s.procs = {}
 
     def cleanup(s):
         if not s.keep: shutil.rmtree(s.work, ignore_errors=True)
@@ -170,11 +172,27 @@ class Runner:
         else:
             flags += ['-DVP_WITNESS', '--no-standard-checks', '--trace']
         tmpdir = tempfile.mkdtemp(prefix='t_', dir=s.work)
-        r = run_cbmc(cfile, flags, Q.timeout, Q.mem_gb, tmpdir)
+        key = (Q.name, kind)
+        if key in s.decided:
+            return dict(rc=None, err='', timeout=False, seconds=0.0, rss_mb=0, cmd='', kind=kind, solver=solver, query=Q.name,
+                        parsed=dict(status='cancelled', failed=[], nprops=0, messages=[], vars=None, clauses=None))
+        def reg(p): s.procs.setdefault(key, []).append(p)
+        r = run_cbmc(cfile, flags, Q.timeout, Q.mem_gb, tmpdir, register=reg)
         shutil.rmtree(tmpdir, ignore_errors=True)
         r['kind'] = kind; r['solver'] = solver; r['query'] = Q.name
-        r['parsed'] = parse_cbmc(r['out']) if not r['timeout'] else dict(status='timeout', failed=[], nprops=0, messages=[], vars=None, clauses=None)
+        if key in s.decided and r['rc'] not in (0, 10):
+            r['parsed'] = dict(status='cancelled', failed=[], nprops=0, messages=[], vars=None, clauses=None)
+        else:
+            r['parsed'] = parse_cbmc(r['out']) if not r['timeout'] else dict(status='timeout', failed=[], nprops=0, messages=[], vars=None, clauses=None)
         del r['out']
+        # portfolio: the first definite verdict of a query decides it; the other back ends are stopped
+        if r['parsed']['status'] in ('success', 'failure') and not any(m.startswith('ERROR') for m in r['parsed']['messages']):
+            if key not in s.decided:
+                s.decided.add(key)
+                for p in s.procs.get(key, []):
+                    if p.poll() is None:
+                        try: os.killpg(p.pid, signal.SIGKILL)
+                        except ProcessLookupError: pass
         return r
 
     def run(s, queries, max_workers=None):
@@ -226,6 +244,7 @@ def classify(entry):
     statuses = set()
     for r in ver:
         p = r['parsed']
+        if p['status'] == 'cancelled': continue
         if p['messages'] and any(m.startswith('ERROR') for m in p['messages']): statuses.add('error'); continue
         statuses.add(p['status'])
         if p['status'] == 'failure' and p['failed']: viol = r
@@ -233,6 +252,7 @@ def classify(entry):
         if all('unwinding assertion' in (f['description'] or '') for f in viol['parsed']['failed']):
             return 'broken', 'unwinding bound too small: ' + '; '.join((f['description'] or '') + ' ' + str(f['property']) for f in viol['parsed']['failed'])
         return 'violated', viol
+    if 'success' in statuses and not (statuses - {'success', 'timeout'}): statuses = {'success'}   # a slower back end timing out does not matter
     if statuses != {'success'}: return 'broken', f"verify runs: {sorted(statuses)} " + '; '.join((r['parsed']['messages'] or [''])[0] for r in ver)[:300]
     if Q.witness:
         if not wit: return 'broken', 'witness did not run'
@@ -355,7 +375,9 @@ def main():
                                 outside_bounds=spec.get('outside', [])),
                   assumptions=assumptions, wall_s=round(wall, 1), violations=violations)
         os.makedirs(os.path.join(ROOT, 'evidence'), exist_ok=True)
-        json.dump(ev, open(os.path.join(ROOT, 'evidence', a.pid + '.json'), 'w'), indent=1)
+        evdir = 'evidence' if not (a.only or os.environ.get('VP_DEV')) else 'evidence_dev'   # partial / development runs never touch the real evidence
+        os.makedirs(os.path.join(ROOT, evdir), exist_ok=True)
+        json.dump(ev, open(os.path.join(ROOT, evdir, a.pid + '.json'), 'w'), indent=1)
         print(f"{a.pid} tier={a.tier}: {verified} verified, {violations} violated, {broken} broken of {len(res)} queries in {wall:.0f}s")
         if violations: sys.exit(1)
         if broken: sys.exit(2)
